@@ -5,6 +5,6 @@ CONSTANTS
   MaxLen = 2
   MaxLen2 = 3
   MaxVals = 2
-  Sample = 80
+  Sample = 50
 INVARIANTS Emit
 CHECK_DEADLOCK FALSE
